@@ -4,6 +4,8 @@
    observation is computed from both and they are cross-checked inside the driver: an
    observation line starting with `SPECDIFF` means the refinement fails on this history. -/
 import DDS.Model.Store
+import DDS.Model.Sketch
+import DDS.Model.Proto
 import DDS.Driver.Util
 
 namespace DDS.Driver.StoreOps
@@ -18,7 +20,7 @@ deriving Inhabited
 abbrev Tbl := List (Nat × Entry)
 
 def isStoreCmd (c : String) : Bool :=
-  c ∈ ["S", "sadd", "smerge", "scopy", "sclear", "srew", "sobs", "skr"]
+  c ∈ ["S", "sadd", "smerge", "scopy", "sclear", "srew", "sobs", "skr", "sencdec", "sproto"]
 
 def parseKind : List String → Option StoreKind
   | ["dense"] => some .dense
@@ -92,6 +94,45 @@ def run (t : Tbl) (cmd : String) (args : List String) : Tbl × String :=
         | some (.error _) => (t, "err")
         | some (.ok s) =>
           (put t h { e with store := s, spec := if w = 1 then e.spec else e.spec.reweight w }, "ok")
+  | "sencdec", [h, h2] =>
+    -- Encode(h) then DecodeAndMergeWith block by block into h2 (h itself may be compacted by Encode)
+    withEntry t h fun h e =>
+      match (parseNat h2).bind (fun k => (get? t k).map (fun o => (k, o))) with
+      | none => (t, "bad-handle")
+      | some (k2, o) =>
+        if o.poisoned then (t, "poisoned") else
+        match Sketch.encodeStore e.store .pos with
+        | none => poison t h e
+        | some (st', blocks) =>
+          let t := put t h { e with store := st' }
+          let o := if k2 == h then { o with store := st' } else o
+          let bytes := Wire.encBlocks blocks
+          let rec loop (fuel : Nat) (st : Store) (bs : List Nat) : Option (Except SkErr Store) :=
+            match fuel, bs with
+            | _, [] => some (.ok st)
+            | 0, _ => none
+            | fuel + 1, f :: rest =>
+              match Sketch.decodeStore st (Wire.flagSub f) rest with
+              | none => none
+              | some (.error er) => some (.error er)
+              | some (.ok (st2, rest2)) => loop fuel st2 rest2
+          match loop (bytes.length + 1) o.store bytes with
+          | none => poison t k2 o
+          | some (.error _) => (t, "err")
+          | some (.ok st2) => (put t k2 { o with store := st2, spec := o.spec.mergeContent e.spec.c }, "ok")
+  | "sproto", [h, h2] =>
+    -- ToProto(h) then MergeWithProto into h2
+    withEntry t h fun _ e =>
+      match (parseNat h2).bind (fun k => (get? t k).map (fun o => (k, o))) with
+      | none => (t, "bad-handle")
+      | some (k2, o) =>
+        if o.poisoned then (t, "poisoned") else
+        match Proto.storeToProto e.store with
+        | none => (t, "panic")
+        | some pb =>
+          match Proto.mergeWithProto o.store pb with
+          | none => poison t k2 o
+          | some st2 => (put t k2 { o with store := st2, spec := o.spec.mergeContent e.spec.c }, "ok")
   | "sobs", [h] => withEntry t h fun _ e => (t, obs e)
   | "skr", [h, r] =>
     match parseRat r with
